@@ -26,8 +26,10 @@ from sim.core import derive, jdump  # noqa
 PY = os.environ.get('VERIF_PYTHON', '/venv/bin/python')
 WORKER = os.path.join(HERE, 'worker.py')
 FINDINGS = os.path.join(ROOT, 'known_findings.json')
-EVIDENCE_DIR = os.path.join(ROOT, 'evidence')
-REPLAY_DIR = os.path.join(ROOT, 'replays')
+# evidence is only ever written to /verif/evidence by a run against /repo itself; probes against a scratch tree write elsewhere
+EVIDENCE_DIR = os.environ.get('VERIF_EVIDENCE_DIR') or (
+    os.path.join(ROOT, 'evidence') if not os.environ.get('VERIF_REPO') else os.path.join(ROOT, 'replays', 'scratch-evidence'))
+REPLAY_DIR = os.environ.get('VERIF_REPLAY_DIR') or os.path.join(ROOT, 'replays')
 BLOCK_TIMEOUT = float(os.environ.get('VERIF_BLOCK_TIMEOUT', '3000'))
 
 
